@@ -268,6 +268,13 @@ Fixpoint run (l : loopk) (c : cfg) (i : nat) (s : st) (carry : Z) (sch : list sb
 Definition client (l : loopk) (c : cfg) (sch : list sbeh) (cp : cancelpt) : list event :=
   run l c 0 init 0 sch cp.
 
+(* Which loop the users of the client start.  internal/rwc (the host's destinations): "if token == \"\"
+   { go ws.Reconnect(ctx, url) } else { go ws.ReconnectAuth(ctx, url, token) }";  internal/file (the
+   file tool), pkg/client and through it pkg/status: always ReconnectAuth. *)
+Definition wrapper_choice (token_is_empty : bool) : loopk := if token_is_empty then LPlain else LAuth.
+Definition file_choice : loopk := LAuth.
+Definition client_pkg_choice : loopk := LAuth.
+
 (* what one scheduled attempt yields when no cancellation interferes *)
 Definition outcome_of (l : loopk) (ab : sbeh) : outcome :=
   match l with
